@@ -1695,8 +1695,94 @@ def thread_optional_locals(trees):
 
     def dotted_name(t):
         return t.id if isinstance(t, ast.Name) else None
+
+    def never_none(e, tree):
+        """a value that cannot be None: a display, a non-None constant, an instance made by calling a CapWords name, or the result
+        of a module-level function of this module every return of which is such a value (and which cannot fall off its end)"""
+        if isinstance(e, (ast.Tuple, ast.List, ast.Dict, ast.Set, ast.JoinedStr)):
+            return True
+        if isinstance(e, ast.Constant):
+            return e.value is not None
+        if isinstance(e, ast.Call):
+            f = e.func
+            nm = f.id if isinstance(f, ast.Name) else (f.attr if isinstance(f, ast.Attribute) else None)
+            if nm and nm[:1].isupper():
+                return True
+            if isinstance(f, (ast.Call, ast.Subscript)):
+                return True         # the result of calling a looked-up class/factory (table[code](), get(..)()): an instance
+            if isinstance(f, ast.Name):
+                for st in tree.body:
+                    if isinstance(st, ast.FunctionDef) and st.name == f.id and not st.decorator_list:
+                        rets = [x for x in ast.walk(st) if isinstance(x, ast.Return)]
+                        def always_returns(b):
+                            if not b:
+                                return False
+                            l_ = b[-1]
+                            if isinstance(l_, (ast.Return, ast.Raise)):
+                                return True
+                            if isinstance(l_, ast.If):
+                                return always_returns(l_.body) and always_returns(l_.orelse)
+                            if isinstance(l_, ast.Try) and not l_.finalbody:
+                                return always_returns(l_.body + l_.orelse) and all(always_returns(h.body) for h in l_.handlers)
+                            return False
+                        return bool(rets) and always_returns(st.body) and all(r.value is not None and never_none(r.value, tree) for r in rets)
+        return False
+
+    def ends_in_jump(stmts):
+        return bool(stmts) and isinstance(stmts[-1], (ast.Return, ast.Raise, ast.Continue, ast.Break))
+
+    def rewrite_chain(stmts, fn, tree):
+        """if-chain whose arms end by binding x (to a never-None value or to None), followed by `if x is not None: <...jump>`"""
+        nonlocal n
+        i = 0
+        while i + 1 < len(stmts):
+            a, b = stmts[i], stmts[i + 1]
+            if isinstance(a, ast.If) and isinstance(b, ast.If) and not b.orelse and ends_in_jump(b.body):
+                t = b.test
+                if isinstance(t, ast.Compare) and len(t.ops) == 1 and isinstance(t.ops[0], ast.IsNot) and isinstance(t.left, ast.Name) and is_none(t.comparators[0]):
+                    x = t.left.id
+                    arms = []
+                    cur = a
+                    ok = True
+                    while True:
+                        arms.append(cur.body)
+                        if len(cur.orelse) == 1 and isinstance(cur.orelse[0], ast.If):
+                            cur = cur.orelse[0]
+                            continue
+                        if cur.orelse:
+                            arms.append(cur.orelse)
+                        break
+                    kinds = []
+                    for arm in arms:
+                        last = arm[-1] if arm else None
+                        if not (isinstance(last, ast.Assign) and len(last.targets) == 1 and dotted_name(last.targets[0]) == x):
+                            ok = False
+                            break
+                        kinds.append('none' if is_none(last.value) else ('some' if never_none(last.value, tree) else 'unknown'))
+                    pre_none = i > 0 and isinstance(stmts[i - 1], ast.Assign) and len(stmts[i - 1].targets) == 1 and dotted_name(stmts[i - 1].targets[0]) == x and is_none(stmts[i - 1].value)
+                    complete = len(arms) >= 2 and arms[-1] is not arms[0] and (cur.orelse != [] or pre_none)
+                    if ok and 'unknown' not in kinds and 'some' in kinds and (cur.orelse or pre_none) and len(arms) >= 2:
+                        used_later = any(isinstance(y, ast.Name) and y.id == x for later in stmts[i + 2:] for y in ast.walk(later))
+                        if not used_later:
+                            for arm, kd in zip(arms, kinds):
+                                if kd == 'some':
+                                    arm.extend(copy.deepcopy(b.body))
+                            del stmts[i + 1]
+                            n += 1
+                            continue
+            i += 1
+        for st in stmts:
+            if isinstance(st, (ast.FunctionDef, ast.AsyncFunctionDef, ast.ClassDef)):
+                continue
+            for fld in ('body', 'orelse', 'finalbody'):
+                sub = getattr(st, fld, None)
+                if isinstance(sub, list) and sub and isinstance(sub[0], ast.stmt):
+                    rewrite_chain(sub, fn, tree)
+            for h in getattr(st, 'handlers', []) or []:
+                rewrite_chain(h.body, fn, tree)
     for tree in trees.values():
         for fn in [x for x in ast.walk(tree) if isinstance(x, (ast.FunctionDef, ast.AsyncFunctionDef))]:
             rewrite(fn.body, fn)
+            rewrite_chain(fn.body, fn, tree)
         ast.fix_missing_locations(tree)
     return n
